@@ -47,8 +47,9 @@ const (
 )
 
 type c53KeyScript struct {
-	Key  int   `json:"key"`     // index of the key value
-	Offs []int `json:"offs_us"` // target offsets from the start of the case, microseconds
+	Key  int   `json:"key"`            // index of the key value
+	Offs []int `json:"offs_us"`        // target offsets from the start of the case, microseconds
+	Open []int `json:"open,omitempty"` // indices of the requests that nominally open a period (timing anchors)
 }
 
 type c53Case struct {
@@ -139,7 +140,7 @@ func c53RuleJSON(name string, m *c53Mode, action string, checkS, stayS, threshol
 // steer towards periods that are exceeded, jails that are probed and served,
 // periods that run out, and a few probes 2 ms around the edges; the oracle
 // never uses these nominal expectations.
-func c53GenScript(g *vkit.Rand, T, pMs, sMs, maxReq, maxDurUs int) []int {
+func c53GenScript(g *vkit.Rand, T, pMs, sMs, maxReq, maxDurUs int) (offs, open []int) {
 	p, s := pMs*1000, sMs*1000
 	const G = c53GuardUs
 	const (
@@ -148,7 +149,6 @@ func c53GenScript(g *vkit.Rand, T, pMs, sMs, maxReq, maxDurUs int) []int {
 		jailed
 	)
 	mode, ws, c, rel := idle, 0, 0, 0
-	var offs []int
 	cur := g.Range(0, 30_000)
 	full := func() bool { return len(offs) >= maxReq || cur > maxDurUs }
 	send := func(t int) {
@@ -171,6 +171,7 @@ func c53GenScript(g *vkit.Rand, T, pMs, sMs, maxReq, maxDurUs int) []int {
 		}
 		if mode == idle {
 			mode, ws, c = counting, t, 0
+			open = append(open, len(offs)-1)
 		}
 		c++
 		if c > T {
@@ -229,7 +230,7 @@ func c53GenScript(g *vkit.Rand, T, pMs, sMs, maxReq, maxDurUs int) []int {
 			}
 		}
 	}
-	return offs
+	return offs, open
 }
 
 func c53GenKeys(r *vkit.Run, i int) *c53Case {
@@ -250,7 +251,8 @@ func c53GenKeys(r *vkit.Run, i int) *c53Case {
 	c.Sign = c53Modes[g.Intn(len(c53Modes))].name
 	nk := g.Range(3, 6)
 	for k := 0; k < nk; k++ {
-		c.Keys = append(c.Keys, c53KeyScript{Key: k, Offs: c53GenScript(g.Fork(), c.T, c.PMs, c.SMs, 40, 1_400_000)})
+		offs, open := c53GenScript(g.Fork(), c.T, c.PMs, c.SMs, 40, 1_400_000)
+		c.Keys = append(c.Keys, c53KeyScript{Key: k, Offs: offs, Open: open})
 	}
 	return c
 }
@@ -301,15 +303,16 @@ func c53GenAnchor(r *vkit.Run) *c53Case {
 		b = append(b, 50_000+k*70_000)
 	}
 	b = append(b, 1_250_000+g.Range(0, 100_000), 1_700_000)
-	c.Keys = []c53KeyScript{{Key: 0, Offs: a}, {Key: 1, Offs: b}}
+	c.Keys = []c53KeyScript{{Key: 0, Offs: a, Open: []int{0}}, {Key: 1, Offs: b, Open: []int{0, c.T}}}
 	return c
 }
 
 // ---- execution -------------------------------------------------------------------
 
 type c53KeyObs struct {
-	Key int     `json:"key"`
-	Evs []c53Ev `json:"events"`
+	Key   int     `json:"key"`
+	Evs   []c53Ev `json:"events"`
+	Shift []int   `json:"shift_us,omitempty"` // by how much the script had been slid when the call was made
 }
 
 type c53Obs struct {
@@ -470,8 +473,20 @@ func c53Run(r *vkit.Run, c *c53Case, tgt c53Target) *c53Obs {
 		go func(ki int) {
 			defer wg.Done()
 			ko := c53KeyObs{Key: c.Keys[ki].Key}
+			// The request that nominally opens a period is the anchor of everything the
+			// script places relative to that period (its end, the release of a jail):
+			// by however much such a request is late (loaded machine), the REST of the
+			// key's script is slid. The script itself is unchanged.
+			shift, nextOpen := 0, 0
 			for n, off := range c.Keys[ki].Offs {
-				clk.sleepUntil(off)
+				clk.sleepUntil(off + shift)
+				if nextOpen < len(c.Keys[ki].Open) && c.Keys[ki].Open[nextOpen] == n {
+					nextOpen++
+					if late := int(time.Since(clk.start)/time.Microsecond) - (off + shift); late > 0 {
+						shift += late
+					}
+				}
+				ko.Shift = append(ko.Shift, shift)
 				q := reqs[ki][n]
 				var ev c53Ev
 				if r.Try(desc, func() { ev = clk.call(func() bool { return tgt.check(q) }) }) {
@@ -513,7 +528,7 @@ func c53DenySpans(evs []c53Ev) []c53Span {
 }
 
 func c53ScriptKey(c *c53Case, ki int) string {
-	return fmt.Sprintf("%s|T%d|P%d|S%d|%s|k%d|%v|w%dx%d", c.Kind, c.T, c.PMs, c.SMs, c.Sign, c.Keys[ki].Key, c.Keys[ki].Offs, c.Workers, c.PerWorker)
+	return fmt.Sprintf("%s|T%d|P%d|S%d|%s|k%d|%v|%v|w%dx%d", c.Kind, c.T, c.PMs, c.SMs, c.Sign, c.Keys[ki].Key, c.Keys[ki].Offs, c.Keys[ki].Open, c.Workers, c.PerWorker)
 }
 
 func c53Witness(c *c53Case, obs *c53Obs, ki int, extra map[string]interface{}) map[string]interface{} {
@@ -525,6 +540,24 @@ func c53Witness(c *c53Case, obs *c53Obs, ki int, extra map[string]interface{}) m
 		w[k] = v
 	}
 	return w
+}
+
+// lateness of every scripted call (actual call stamp - target offset), evidence only
+var (
+	c53LateMu sync.Mutex
+	c53Late   []int64
+)
+
+func c53LateReport(r *vkit.Run) {
+	c53LateMu.Lock()
+	defer c53LateMu.Unlock()
+	if len(c53Late) == 0 {
+		return
+	}
+	sort.Slice(c53Late, func(i, j int) bool { return c53Late[i] < c53Late[j] })
+	q := func(f float64) string { return c53ms(c53Late[int(f*float64(len(c53Late)-1))]) }
+	r.Extra("call_lateness_vs_script", map[string]string{"p50": q(0.5), "p90": q(0.9), "p99": q(0.99), "max": q(1)})
+	fmt.Printf("  call lateness vs script: p50=%s p90=%s p99=%s max=%s\n", q(0.5), q(0.9), q(0.99), q(1))
 }
 
 // c53Judge evaluates all key histories of one executed case.
@@ -591,8 +624,17 @@ func c53Judge(r *vkit.Run, c *c53Case, obs *c53Obs) {
 			if e.B-e.A > 5e6 {
 				r.Count("calls_longer_than_5ms", 1)
 			}
-			if i < len(c.Keys[ki].Offs) && e.A-int64(c.Keys[ki].Offs[i])*1000 > 5e6 {
-				r.Count("calls_later_than_5ms", 1)
+			if i < len(c.Keys[ki].Offs) {
+				late := e.A - int64(c.Keys[ki].Offs[i])*1000
+				if i < len(obs.keys[ki].Shift) {
+					late -= int64(obs.keys[ki].Shift[i]) * 1000 // relative to the slid script
+				}
+				if late > 5e6 {
+					r.Count("calls_later_than_5ms", 1)
+				}
+				c53LateMu.Lock()
+				c53Late = append(c53Late, late)
+				c53LateMu.Unlock()
 			}
 		}
 		r.Count("checked_allow", nAllow)
@@ -814,6 +856,7 @@ func c53(r *vkit.Run) {
 	vkit.Parallel(nKeys, 40, func(i int) { runCase(c53GenKeys(r, i)) })
 	awg.Wait()
 
+	c53LateReport(r)
 	req := r.Counter("requests")
 	if req > 0 && r.Counter("ambiguous")*100 > req*30 {
 		r.Inconclusive(fmt.Sprintf("ambiguous fraction too high: %d of %d requests", r.Counter("ambiguous"), req))
